@@ -432,7 +432,7 @@ class ThreadRun(Unit):
     ignore_calls = ('traceback.print_exc',)
     has_target = True
     numeric_vals_are_ints = True
-    ignore_stmts = (r"tb = .*", r"e\.__cause__ = .*", r"e\.__traceback__ = None")
+    ignore_stmts = (r"e\.__traceback__ = None",)
     canaries = (
         ('exception stored as a result', '            self._future_.set_exception(e)\n            # Sometimes', '            self._future_.set_result(e)\n            # Sometimes', 'resolved exactly once'),
         ('sys.exit(0) reported as an error', 'if e.code == 0:', 'if e.code != 0:', 'resolved exactly once'),
@@ -457,7 +457,28 @@ class ThreadRun(Unit):
         ex.globals['concurrent.futures.Future'] = FutureCtor()
         ex.globals['traceback'] = Module('traceback')
         ex.globals['threading'] = Module('threading')
+        ex.globals['traceback.format_exception'] = Fn(lambda e, s, a, k, n: [('ok', s, fresh('formatted_traceback_lines'))], trusted='traceback.format_exception does not raise')
+        ex.globals['threading.current_thread'] = Fn(lambda e, s, a, k, n: [('ok', s, Rec(e, 'current_thread', immutable=True).init(s, name=fresh('thread_name', z3.StringSort())))])
+
+        # type(e)(tb): the constructor of the USER's exception class called with one string -- it may not accept that (a class with two required arguments,
+        # a class that validates its argument ...): any Exception may come out of it
+        def type_of(e, s, a, k, n):
+            inst = box(e, a[0])
+
+            def construct(e2, s2, a2, k2, n2):
+                new = fresh('same_class_exception')
+                s_ok = s2.fork().assume(V.ucls(new) == V.ucls(inst), *V.cls_facts(new))
+                boom = fresh('exception_class_ctor_failure')
+                s_bad = s2.fork().assume(V.isinst(boom, 'Exception'), *V.cls_facts(boom))
+                return [('ok', s_ok, new), ('raise', s_bad, boom)]
+            return [('ok', s, Fn(construct, name='type(e)'))]
+        ex.globals['type'] = Fn(type_of)
         return st
+
+    def on_call(self, ex, st, e, src):
+        if src == "''.join":
+            return ex.bind(ex.evargs(e, st), lambda s, ak: [('ok', s, fresh('traceback_text', z3.StringSort()))])
+        return None
 
     def post(self, ex, outs):
         a = [self.args.val, self.kw.val]
@@ -1022,4 +1043,4 @@ UNITS = [ProcInit, ProcInitNone, ProcessRun, ProcessRunNoTarget, CollectResult, 
          ThreadRun, ThreadRunNoTarget, ThreadJoin, ThreadResult, ThreadException] + UNITS_THREAD_EXTRA + UNITS_WAIT + [Agreement]
 
 
-SCENARIOS = [('', 'replay/scenarios/c12_sigkill_wait.py')]
+SCENARIOS = [('', 'replay/scenarios/c12_sigkill_wait.py'), ('', 'replay/scenarios/c12_exotic_exceptions.py')]
